@@ -523,7 +523,11 @@ def answer (stream : String) (f : Array String) : Ans :=
     let absolute := (splitPathname (expandEnvString (fun k => lookup es.env.exported k) path)).1.head? = some '/'
     let m : String := if absolute then "UNMODELLED absolute-directory" else
       match completePath fs (fun k => lookup es.env.exported k) word forDir with
-      | .ok cs => if cs.isEmpty then "[]" else "&".intercalate (cs.map (fun c => C20D.complOut c ++ "@" ++ planS (C20D.lineFor prog sep c)))
+      | .ok cs =>
+        -- entries with one and the same inserted text come in read_dir's order: canonical order among them, as the harness does
+        let keyed := cs.map (fun c => (String.ofList c.completion, C20D.complOut c ++ "@" ++ planS (C20D.lineFor prog sep c)))
+        let sorted := (keyed.toArray.qsort (fun a b => a.1 < b.1 || (a.1 == b.1 && a.2 < b.2))).toList
+        if cs.isEmpty then "[]" else "&".intercalate (sorted.map (·.2))
       | .err k => if k.startsWith "unmodelled" then "UNMODELLED " ++ k else "ERR " ++ k
       | .panic _ => "PANIC"
       | .diverge _ => "HANG"
